@@ -236,6 +236,22 @@ def run(ctx, replay=None):
     g1['cfg']['routines'] = 1
     traces.append(g1)
 
+    # 5b. classes outside the specification's alphabet: a contract that calls the 0xfe precompile with short / overlong
+    #     input, a contract that loops until the EVM gas budget is exhausted (thorough only: ~1 s each)
+    def tx(c, a, n):
+        return {'c': c, 'a': a, 'n': n, 'k': '-', 'v': '-'}
+    ex = {'id': 'exotic', 'cfg': {'accts': [1, 2], 'keys': ['k1'], 'maxn': 2, 'mode': 'oracle'}, 'init': None, 'steps': []}
+    blocks = [[tx('create', 1, 0), tx('admcall', 2, 0), tx('admcall', 2, 1)],
+              [tx('admcall', 1, 1), tx('admcall', 2, 2), tx('oog', 1, 2), tx('revert', 2, 3), tx('pre', 1, 3), tx('admshort', 2, 4), tx('admok', 1, 4)]]
+    if not quick:
+        blocks.append([tx('loop', 1, 5), tx('call', 2, 5), tx('loop', 1, 5)])
+    for blk in blocks:
+        ex['steps'].append({'a': 'Begin', 'args': [], 'post': None})
+        for t in blk:
+            ex['steps'].append({'a': 'ExecTx', 'args': [t, 'valid'], 'post': None})
+        ex['steps'].append({'a': 'Commit', 'args': [], 'post': None})
+    traces.append(ex)
+
     # 6. byte-level mutants (bounded): model-independent oracles only
     nm = 6 if quick else 60
     for k in range(nm):
